@@ -157,7 +157,9 @@ def main():
         "discards": dict(rec.discards),
         "discard_rate": round(sum(rec.discards.values()) / max(1, rec.evaluations + sum(rec.discards.values())), 4),
         "max_fuel": rec.max_fuel,
-        "exhaustive": bool(rec.exhaustive),
+        # true only when the property's whole domain is finite and was enumerated (C20);
+        # finite sub-domains that were enumerated completely are listed below
+        "exhaustive": bool(getattr(mod, "WHOLE_DOMAIN_FINITE", False)) and bool(rec.exhaustive),
         "exhaustive_subdomains": rec.exhaustive,
         "known_findings_seen": known_hits,
         "known_findings_not_seen_this_run": stale,
